@@ -113,6 +113,13 @@ def hashlittle2C (addr : Nat) (mem : List UInt8) (len : Nat) (pc pb : UInt32) : 
   else if addr % 2 = 0 then hashlittle2Path Gen.l3Block16 Gen.l3Tail16 mem len pc pb
   else hashlittle2Path Gen.l3Block8 Gen.l3Tail8 mem len pc pb
 
+/-- `hashlittle2` as compiled with `-DVALGRIND`: the 32-bit-load path uses its byte-exact tail switch
+(`Gen.l3Tail32V`: whole words where they lie inside the key, single bytes through `k8[...]` otherwise) -/
+def hashlittle2CV (addr : Nat) (mem : List UInt8) (len : Nat) (pc pb : UInt32) : UInt32 × UInt32 :=
+  if addr % 4 = 0 then hashlittle2Path Gen.l3Block32 Gen.l3Tail32V mem len pc pb
+  else if addr % 2 = 0 then hashlittle2Path Gen.l3Block16 Gen.l3Tail16 mem len pc pb
+  else hashlittle2Path Gen.l3Block8 Gen.l3Tail8 mem len pc pb
+
 def join64 (b c : UInt32) : Nat := b.toNat * 2 ^ 32 + c.toNat      -- ((uint64_t)b << 32) | c
 
 /-- `aws_hash_byte_cursor_ptr` / `aws_hash_string`: the bytes of the cursor / string -/
